@@ -45,6 +45,16 @@ def spelled_value(sp):
     return num_value(float(fr))
 
 
+def beyond_floats(sp):
+    from fractions import Fraction
+    try:
+        return abs(float(Fraction(sp))) == float('inf')
+    except OverflowError:
+        return True
+    except ValueError:
+        return False
+
+
 def permissive_member(toks, lang, keywords=None):
     """Is some reading of toks in the bounded language?  Keyword tokens may also be read as names;
     every CNAME-class token (a, abs, a keyword read as a name) is a function name directly before
@@ -182,6 +192,9 @@ def lex_events(rep, thorough, new_ids, byid):
             info = texts[text]
             g = info['greedy']
             kind = None
+            if g is not None and any(c == 'NUM' and beyond_floats(sp) for c, sp in g):
+                nuns += 1           # 1e999: a value outside the floats; what the literal then holds is not stated
+                continue
             if g is not None and not info['adj'] and lex.abstract(g) in lang:
                 try:
                     exp = lex.fill(grammar.fix_var_names(lang[lex.abstract(g)]), g, spelled_value)
